@@ -101,6 +101,9 @@ func draw(kind string, seed, n int) []*genlab.ProgSpec {
 			if kind == "redact" {
 				o.RedactRate = 2
 			}
+			if kind == "service" {
+				o.MoreServices = true
+			}
 			p := im.GenProgram(t, o)
 			return &genlab.ProgSpec{ID: fmt.Sprintf("p%d", i), Program: p, Opts: optsFor(t, kind)}
 		})
@@ -139,6 +142,7 @@ func TestC04Encode(t *testing.T)    { drv.C04Encode(t) }
 func TestC05(t *testing.T)          { drv.C05(t) }
 func TestC14(t *testing.T)          { drv.C14(t) }
 func TestC15(t *testing.T)          { drv.C15(t) }
+func TestC19Helpers(t *testing.T)   { drv.C19Helpers(t) }
 func TestReplay(t *testing.T)  { drv.Replay(t) }
 func TestRegress(t *testing.T) { drv.Regress(t) }
 `
